@@ -72,7 +72,7 @@ func relLine(c *Ctx, a Access) string {
 }
 
 func checkC12(c *Ctx) {
-	c.Rule("R12.1", "every access to BufferedWriteSyncer's mutable state holds its mutex", 18)
+	c.Rule("R12.1", "every access to BufferedWriteSyncer's mutable state holds its mutex", 10)
 	c.Rule("R12.2", "Write: one buffered write of the original parameter; flush first exactly when it does not fit and the buffer is non-empty", 3)
 	c.Rule("R12.3", "Sync flushes when initialised and always syncs the sink", 2)
 	c.Rule("R12.4", "Stop protocol: atomic test-and-set, close once, wait unlocked, final Sync, non-blocking otherwise", 4)
